@@ -159,6 +159,42 @@ JudgeC07(e) ==
              IN IF dev # "" THEN Known(dev, why) ELSE Bad(why)
     [] OTHER -> NAv
 
+\* C08: a failing reader or writer always surfaces as an error; an EncodeBebop
+\* that returns nil has written exactly an encoding of the value
+JudgeC08(e) ==
+  LET c == CaseOf(e)  S == SchemaOf(c)  t == TypeOf(c) IN
+  CASE e.ev = "rfault" ->
+        IF e.res = "err" /\ ~e.big THEN OKv
+        ELSE LET why == "DecodeBebop with a reader failing (" \o e.kind \o ", " \o e.style \o ") after "
+                        \o ToString(e.k) \o " of " \o ToString(Len(c.enc)) \o " bytes: " \o
+                        (IF e.res = "err" THEN "allocation out of proportion" ELSE IF e.res = "nil" THEN "no error" ELSE e.res)
+                 dev == AsIsReaderFault(Devs, S, t, c, e)
+             IN IF dev # "" THEN Known(dev, why) ELSE Bad(why)
+    [] e.ev = "wfault" ->
+        IF e.res = "err" /\ ~e.big THEN OKv
+        ELSE Bad("EncodeBebop with write call " \o ToString(e.k) \o " failing (" \o e.kind \o ", " \o e.style \o "): " \o
+                 (IF e.res = "err" THEN "allocation out of proportion" ELSE IF e.res = "nil" THEN "no error" ELSE e.res))
+    [] e.ev = "wcount" ->
+        FirstBad(<< <<e.res = "nil", "EncodeBebop to a healthy writer: " \o e.res>>,
+                    <<e.res # "nil" \/ IsEncodingOf(S, t, c.v, OutOf(e)), "EncodeBebop returned nil but did not write an encoding of the value">> >>)
+    [] OTHER -> NAv
+
+\* C05: each DecodeBebop consumes exactly one record, whatever the fragmentation
+RecVal(c, i) == IF i = 0 THEN c.v ELSE c.seq[i]
+RecEnc(c, i) == IF i = 0 THEN c.enc ELSE c.seqenc[i]
+JudgeC05(e) ==
+  LET c == CaseOf(e)  S == SchemaOf(c)  t == TypeOf(c) IN
+  CASE e.ev = "srec" ->
+        LET v == RecVal(c, e.rec)
+            what == "a record of a stream (" \o e.kind \o " bytes, " \o e.style \o " reader): "
+        IN FirstBad(<<
+             <<e.res = "nil", what \o "DecodeBebop returned " \o e.res>>,
+             <<e.res # "nil" \/ ~e.overask, what \o "asked the reader for bytes beyond the end of the record">>,
+             <<e.res # "nil" \/ e.consumed = e.n, what \o "consumed a number of bytes different from the record's length">>,
+             <<e.res # "nil" \/ e.kind # "ref" \/ e.n = Len(RecEnc(c, e.rec)), what \o "record length differs from the reference encoding">>,
+             <<e.res # "nil" \/ ValOf(e) = Norm(S, t, v), what \o "decoded value differs from the value written">> >>)
+    [] OTHER -> NAv
+
 \* C12: whatever the generator accepts compiles
 JudgeC12(e) ==
   LET c == CaseOf(e)  sch == Schemas[c.si] IN
@@ -176,6 +212,8 @@ Judge(e) ==
     [] Prop = "C09" -> JudgeC09(e)
     [] Prop = "C06" -> JudgeC06(e)
     [] Prop = "C07" -> JudgeC07(e)
+    [] Prop = "C08" -> JudgeC08(e)
+    [] Prop = "C05" -> JudgeC05(e)
     [] Prop = "C02" -> JudgeC02(e)
     [] Prop = "C03" -> JudgeC03(e)
     [] OTHER -> NAv
